@@ -171,3 +171,41 @@ func zzCheckList(list []*Member, uni []*Member, in []bool, label string) {
 	}
 	zzrt.Assert(len(list) == n, label)
 }
+
+// ZZ_C20_Race: the provider and its event-stream child are two actors on two goroutines. While the provider handles
+// the handshake of peer P (delivered before), the engine reports P's address unreachable to the child. The child's
+// report reaches the provider behind the handshake, so P must be gone in the end; and the two handlers must not
+// touch each other's state without synchronisation (happens-before race detector on the repository's accesses).
+func ZZ_C20_Race() {
+	c, ze := zzCluster("m0", "node:0", "a")
+	ze.WithRecRemote()
+	ze.Register("cluster/m0")
+	s := NewSelfManagedProvider(NewSelfManagedConfig())(c)().(*SelfManaged)
+	self := actor.NewPID("node:0", "provider/m0")
+	s.pid = self
+	prov := ze.Register("provider/m0")
+	s.members.Add(c.Member())
+	uni := zzUniverse(c.Member(), 3)
+	if zzrt.Choose(2) == 1 {
+		// another member is already known
+		s.members.Add(uni[2])
+	}
+	p := uni[1]
+	zzrt.RaceDetect(true)
+	zzrt.RaceWatch(true)
+	zzrt.Go(func() {
+		s.Receive(actor.ZZContext(ze.E, self, &Handshake{Member: p}, memberToProviderPID(p)))
+	})
+	zzrt.Go(func() {
+		s.handleEventStream(actor.ZZContext(ze.E, actor.NewPID("node:0", "provider/m0/event"), actor.RemoteUnreachableEvent{ListenAddr: p.Host}, nil))
+	})
+	zzrt.Quiesce()
+	zzrt.RaceWatch(false)
+	// what the child sent to the provider is handled by the provider after the handshake
+	for _, g := range prov.Got {
+		s.Receive(actor.ZZContext(ze.E, self, g.Msg, g.Sender))
+	}
+	zzrt.Assert(!s.members.Contains(p), "C20:member-reported-unreachable-after-its-handshake-is-still-a-member")
+	zzrt.Assert(s.members.Contains(c.Member()), "C20:own-member-removed")
+	zzrt.Reach("report-while-the-provider-handles-the-handshake")
+}
